@@ -106,6 +106,17 @@ fn select(rng: &mut Rng, store: &Arc<Store>, parent: &MergedTree, tree: &MergedT
     builder.write_tree().block_on().unwrap()
 }
 
+/// `base` with some top-level entries replaced by leaf values.
+fn with_overrides(store: &Arc<Store>, base: &MergedTree, edits: &[(u8, V)]) -> MergedTree {
+    let mut b = MergedTreeBuilder::new(base.clone());
+    for (name, v) in edits {
+        let path = repo_path(&[*name]);
+        let val = write_value(store, &path, v).unwrap();
+        b.set_or_remove(path, Merge::normal(val));
+    }
+    b.write_tree().block_on().unwrap()
+}
+
 fn order_by_index(repo: &MutableRepo, ids: Vec<CommitId>) -> Vec<CommitId> {
     if ids.is_empty() {
         return ids;
@@ -138,11 +149,86 @@ fn main() {
             let rich = rng.chance(1, 4);
 
             // ---- a stack with side branches and merges; position 0 is the root commit
-            let n = rng.range(4, 9) as usize;
+            // Index 0 (fixed) and one case in ten: a MERGE commit (2-3 parents that changed
+            // different and overlapping paths, the merge re-editing what its parents
+            // touched, 0-3 descendants) is squashed whole into one of its parents.
+            let corpus = i == 0;
+            let special = corpus || rng.chance(1, 10);
+            let mut n = rng.range(4, 9) as usize;
             let mut commits: Vec<Commit> = vec![store.root_commit()];
             let mut parents: Vec<Vec<usize>> = vec![vec![]];
             let mut mem: Vec<Option<T>> = vec![Some(T::new())];
-            for k in 1..=n {
+            let mut forced: Option<(usize, usize)> = None;
+            if special {
+                let fl = |c: usize| V::File { c, x: false, cp: 0 };
+                let mut t_b = if corpus { T::new() } else { gen_tree(&mut rng, 1, 4, false) };
+                t_b.insert(0, fl(0));
+                t_b.insert(1, fl(8));
+                let k = if corpus || rng.chance(2, 3) { 2 } else { 3 };
+                let mut plan: Vec<(Vec<usize>, T)> = vec![(vec![0], t_b.clone())];
+                let mut t1 = if corpus { t_b.clone() } else { let e = rng.below(2); mutated(&mut rng, &t_b, e, 4, false) };
+                t1.insert(0, fl(1));
+                plan.push((vec![1], t1));
+                let mut t2 = if corpus { t_b.clone() } else { let e = rng.below(2); mutated(&mut rng, &t_b, e, 4, false) };
+                if corpus || rng.chance(1, 2) {
+                    t2.insert(0, fl(2));
+                }
+                t2.insert(1, fl(9));
+                plan.push((vec![1], t2));
+                if k == 3 {
+                    let e = 1 + rng.below(2);
+                    let t3 = mutated(&mut rng, &t_b, e, 4, false);
+                    plan.push((vec![if rng.chance(1, 2) { 1 } else { 2 }], t3));
+                }
+                for (ps, t) in plan {
+                    let pids: Vec<CommitId> = ps.iter().map(|p| commits[*p].id().clone()).collect();
+                    let commit = mut_repo
+                        .new_commit(pids, resolved_tree(&store, &t))
+                        .write()
+                        .block_on()
+                        .unwrap();
+                    commits.push(commit);
+                    parents.push(ps);
+                    mem.push(Some(t));
+                }
+                // the merge commit: the auto-merged parents, with entries its parents touched edited again
+                let mps: Vec<usize> = (2..2 + k).collect();
+                let pc: Vec<Commit> = mps.iter().map(|p| commits[*p].clone()).collect();
+                let auto = jj_lib::rewrite::merge_commit_trees(mut_repo, &pc).block_on().unwrap();
+                let mut edits: Vec<(u8, V)> = vec![];
+                if corpus || rng.chance(2, 3) {
+                    edits.push((1, fl(10)));
+                }
+                if !corpus && rng.chance(1, 2) {
+                    edits.push((0, fl(if rng.chance(1, 2) { 4 } else { 3 })));
+                }
+                if !corpus && rng.chance(1, 3) {
+                    edits.push((2, fl(11)));
+                }
+                let mtree = with_overrides(&store, &auto, &edits);
+                let pids: Vec<CommitId> = mps.iter().map(|p| commits[*p].id().clone()).collect();
+                let m = mut_repo.new_commit(pids, mtree).write().block_on().unwrap();
+                commits.push(m);
+                parents.push(mps.clone());
+                mem.push(None);
+                let m_idx = commits.len() - 1;
+                let nd = if corpus { 2 } else { rng.usize(4) };
+                for _ in 0..nd {
+                    let prev = commits.len() - 1;
+                    let name = if corpus { 3 } else { rng.below(4) as u8 };
+                    let c = if corpus { 9 } else { 8 + rng.usize(4) };
+                    let t = with_overrides(&store, &commits[prev].tree(), &[(name, fl(c))]);
+                    let ps = if !corpus && prev != m_idx && rng.chance(1, 4) { vec![prev, m_idx] } else { vec![prev] };
+                    let pids: Vec<CommitId> = ps.iter().map(|p| commits[*p].id().clone()).collect();
+                    let c = mut_repo.new_commit(pids, t).write().block_on().unwrap();
+                    commits.push(c);
+                    parents.push(ps);
+                    mem.push(None);
+                }
+                n = commits.len() - 1;
+                forced = Some((m_idx, if corpus { 2 } else { 2 + rng.usize(k) }));
+            }
+            for k in 1..=(if special { 0 } else { n }) {
                 let ps: Vec<usize> = match rng.below(10) {
                     0..=6 => vec![k - 1],
                     7 => vec![rng.usize(k)],
@@ -215,14 +301,18 @@ fn main() {
             };
 
             // ---- the operation
-            let what = rng.below(20);
-            let src = 2 + rng.usize(n - 1); // a commit with at least one non-root ancestor candidate
+            let what = if forced.is_some() { 0 } else { rng.below(20) };
+            let src = match forced {
+                Some((m, _)) => m,
+                None => 2 + rng.usize(n - 1), // a commit with at least one non-root ancestor candidate
+            };
             let source = commits[src].clone();
             let parent_tree = source.parent_tree(mut_repo as &dyn Repo).block_on().unwrap();
             let mut news: Vec<NewCommit> = vec![];
             let mut keep_top: Option<CommitId> = None; // final version of the top commit
             // squash makes its promise for a destination that is the source's only parent
             let mut in_scope = true;
+            let mut descendants_only = false;
             let mut failed = false;
             let op_name;
             let what_code;
@@ -230,19 +320,27 @@ fn main() {
                 // ---------------- squash into an ancestor (usually the parent)
                 op_name = "squash";
                 let anc = ancestors_of(src);
-                let dst = if anc.is_empty() || rng.chance(5, 6) && parents[src][0] != 0 {
+                let dst = if let Some((_, d)) = forced {
+                    d
+                } else if anc.is_empty() || rng.chance(5, 6) && parents[src][0] != 0 {
                     parents[src][0]
                 } else {
                     *rng.pick(&anc)
                 };
                 in_scope = parents[src] == vec![dst];
+                // A merge commit squashed whole into ONE of its parents is outside the kept-trees
+                // law: the destination does not become the merge (it lacks the other parents'
+                // changes) and, when the merge's own edits conflict with that parent, the
+                // descendants do not keep their trees on the unchanged code either (observed:
+                // 8 of 50 such cases). These cases are compared by correspondence only.
+                descendants_only = false;
                 if dst == 0 {
                     // the root commit cannot be rewritten: nothing to do in this case
                     ctx.count("skipped: destination is the root");
                     continue;
                 }
-                let full = rng.chance(1, 2);
-                let keep_emptied = rng.chance(1, 6);
+                let full = forced.is_some() || rng.chance(1, 2);
+                let keep_emptied = forced.is_none() && rng.chance(1, 6);
                 let selected = select(&mut rng, &store, &parent_tree, &source.tree(), full);
                 let destination = commits[dst].clone();
                 let sel = CommitWithSelection {
@@ -624,19 +722,36 @@ fn main() {
             }
             // the top commit and its descendants must keep their trees
             let mut keeps: Vec<(u64, u64)> = vec![];
+            let mut keeps_side: Vec<(u64, u64)> = vec![];
             let top_final = keep_top.clone().unwrap_or_else(|| final_of(source.id()));
             let parallel_split = op_name == "split-parallel";
-            if in_scope {
-                if !parallel_split {
+            if in_scope || descendants_only {
+                if !parallel_split && !descendants_only {
                     // (split --parallel has no single top commit)
                     if let Some(r) = ref_of(&top_final) {
                         keeps.push((src as u64, r));
                     }
                 }
+                // descendants that also descend, through another parent outside the source's
+                // line, from a commit rewritten to a different tree go to the second list
+                let line: Vec<usize> = std::iter::once(src).chain(descendants_of(src)).collect();
+                let mut tainted = vec![false; n + 1];
                 for d in descendants_of(src) {
+                    tainted[d] = parents[d].iter().any(|p| {
+                        if line.contains(p) {
+                            tainted[*p]
+                        } else {
+                            let f = final_of(commits[*p].id());
+                            store.get_commit(&f).unwrap().tree_ids() != commits[*p].tree_ids()
+                        }
+                    });
                     let f = final_of(commits[d].id());
                     if let Some(r) = ref_of(&f) {
-                        keeps.push((d as u64, r));
+                        if tainted[d] {
+                            keeps_side.push((d as u64, r));
+                        } else {
+                            keeps.push((d as u64, r));
+                        }
                     }
                 }
             }
@@ -649,18 +764,23 @@ fn main() {
                     list_of(oracle_rows),
                     list_of(rrow),
                     coq::list(keeps.iter(), |(a, b)| coq::pair(coq::n(*a), coq::n(*b))),
+                    coq::list(keeps_side.iter(), |(a, b)| coq::pair(coq::n(*a), coq::n(*b))),
                     coq::n(what_code),
                 ],
             );
             let conflicted = commits.iter().any(|c| !c.tree_ids().is_resolved());
+            let plain = keeps_side.is_empty() && what_code != 3 && !special && in_scope;
             let shape = format!(
-                "{op_name}{}{} desc={}{}",
+                "{op_name}{}{}{}{}{}",
+                if keeps_side.is_empty() { "" } else { " side-merge" },
                 if what_code == 3 { " (selection of a conflicted source)" } else { "" },
-                if in_scope { "" } else { " (ancestor dest)" },
-                descendants_of(src).len().min(2),
+                if special { " (merge into a parent)" } else if in_scope { "" } else { " (ancestor dest)" },
+                if plain { format!(" desc={}", descendants_of(src).len().min(2)) } else { String::new() },
                 if conflicted { " conflicted-input" } else { "" }
             );
-            ctx.emit(i, term, !rows.is_empty() && !keeps.is_empty(), &shape);
+            // merge commits squashed into a parent carry no kept pairs: they count through
+            // the correspondence of the rows they produce
+            ctx.emit(i, term, !rows.is_empty() && (!keeps.is_empty() || special), &shape);
         }
     });
 }
